@@ -245,8 +245,15 @@ func (e *Env) Abort() {
 		p.Release()
 	}
 	if e.DB != nil {
-		e.DB.Close()
+		// the DB may be wedged (that can be the very violation being reported): do not wait forever
+		db := e.DB
 		e.DB = nil
+		done := make(chan struct{})
+		go func() { db.Close(); close(done) }()
+		select {
+		case <-done:
+		case <-time.After(5 * time.Second):
+		}
 	}
 	leveldb.VerifSetVersionObserver(nil)
 }
